@@ -53,6 +53,7 @@ type c17Script struct {
 	Tracking   bool
 	Toggle     bool // tracked at first; tracking is switched off after the first event following the welcome (and the rest is judged untracked)
 	Joined     bool // tracked: join a channel after the welcome (the JOIN handler calls Me())
+	ToggleOn   int  // untracked at first; tracking is switched on after this many events following the welcome (0 = never)
 	Gen        string
 	Collisions int
 	WelcomeDif bool
@@ -60,7 +61,7 @@ type c17Script struct {
 }
 
 func (sc c17Script) String() string {
-	return fmt.Sprintf("tracking=%v toggle-off=%v joined=%v gen=%s collisions=%d welcome-different=%v events=%s", sc.Tracking, sc.Toggle, sc.Joined, sc.Gen, sc.Collisions, sc.WelcomeDif, string(sc.Events))
+	return fmt.Sprintf("tracking=%v toggle-off=%v toggle-on-after=%d joined=%v gen=%s collisions=%d welcome-different=%v events=%s", sc.Tracking, sc.Toggle, sc.ToggleOn, sc.Joined, sc.Gen, sc.Collisions, sc.WelcomeDif, string(sc.Events))
 }
 
 func runC17(c *Ctx) {
@@ -126,10 +127,13 @@ func runC17(c *Ctx) {
 				continue
 			}
 			r := rig.Rand(c.Seed, "C17", "prng", idx)
-			tr := r.Intn(4)
-			sc := c17Script{Tracking: tr > 0, Joined: tr == 2, Toggle: tr == 3, Gen: c17GenNames[r.Intn(len(c17GenNames))], Collisions: r.Intn(7), WelcomeDif: r.Intn(2) == 0}
+			tr := r.Intn(5)
+			sc := c17Script{Tracking: tr > 0 && tr < 4, Joined: tr == 2, Toggle: tr == 3, Gen: c17GenNames[r.Intn(len(c17GenNames))], Collisions: r.Intn(7), WelcomeDif: r.Intn(2) == 0}
 			for k := r.Intn(41); k > 0; k-- {
 				sc.Events = append(sc.Events, "CRDFOK"[r.Intn(6)])
+			}
+			if tr == 4 && len(sc.Events) > 0 {
+				sc.ToggleOn = 1 + r.Intn(len(sc.Events))
 			}
 			if !c17Run(c, "prng", idx, sc) {
 				return
@@ -509,6 +513,14 @@ func c17Run(c *Ctx, gen string, idx int, sc c17Script) bool {
 		}
 		if !check(when) {
 			return c.R.NumViolations() < 30
+		}
+		if sc.ToggleOn == i+1 {
+			bgQuiet()
+			conn.EnableStateTracking() // a tracker created now starts from the nick the client has at this moment
+			sc.Tracking = true
+			if !check("after switching state tracking on") {
+				return c.R.NumViolations() < 30
+			}
 		}
 		if sc.Toggle && i == 0 {
 			bgQuiet() // (switching tracking off while handlers are still using the client is not part of any script)
